@@ -86,13 +86,19 @@ SYMS = ["u", "µx", "m²", "kw", "°d", "q/s"]
 
 
 def pattern(k, n_members):
-    """prefix / doc-string / doc-comment patterns, rotated through 4 variants"""
-    return {
-        0: {"prefix": False, "doc": False, "doc_pos": None},
-        1: {"prefix": True, "doc": False, "doc_pos": n_members},
-        2: {"prefix": False, "doc": True, "doc_pos": 0},
-        3: {"prefix": True, "doc": True, "doc_pos": 1},
-    }[k % 4]
+    """prefix / doc-string / doc-comment patterns, rotated through 6 variants; 'prefix' = both reference unit and units,
+    'prefix_ref' / 'prefix_units' = separately (a prefixed unit beside an unprefixed reference unit and vice versa)"""
+    pats = {
+        0: {"prefix_ref": False, "prefix_units": False, "doc": False, "doc_pos": None},
+        1: {"prefix_ref": True, "prefix_units": True, "doc": False, "doc_pos": n_members},
+        2: {"prefix_ref": False, "prefix_units": False, "doc": True, "doc_pos": 0},
+        3: {"prefix_ref": True, "prefix_units": True, "doc": True, "doc_pos": 1},
+        4: {"prefix_ref": False, "prefix_units": True, "doc": False, "doc_pos": None},
+        5: {"prefix_ref": True, "prefix_units": False, "doc": True, "doc_pos": None},
+    }
+    p = dict(pats[k % 6])
+    p["prefix"] = p["prefix_ref"] and p["prefix_units"]
+    return p
 
 
 PREFIX_FOR = {"0.001": "MILLI", "1000": "KILO", "1000.": "KILO", "1e3": "KILO", "1": "NONE", "1.0": "NONE"}
@@ -110,16 +116,16 @@ def ref_definitions(tier):
             if tier == "quick" and n == 3:
                 # reduced: identity, reversed, and the rotation that puts #[ref_unit] last
                 perms = [perms[0], perms[-1], tuple(list(range(1, members)) + [0])]
-            pats = range(4) if (tier == "thorough" and n <= 2) else [None]
+            pats = range(6) if (tier == "thorough" and n <= 2) else [None]
             for perm in perms:
                 for pk in pats:
                     pat = pattern(k if pk is None else pk, members)
                     k += 1
                     us = []
                     for i, lit in enumerate(combo):
-                        pre = PREFIX_FOR.get(lit) if pat["prefix"] else None
+                        pre = PREFIX_FOR.get(lit) if pat["prefix_units"] else None
                         us.append(unit("Unit_%s" % "abc"[i].upper() + "x", SYMS[i + 1], lit, pre, "doc %d" % i if pat["doc"] else None))
-                    ref = unit("Ref_Unit", SYMS[0], None, "NONE" if pat["prefix"] else None, "reference" if pat["doc"] else None)
+                    ref = unit("Ref_Unit", SYMS[0], None, "NONE" if pat["prefix_ref"] else None, "reference" if pat["doc"] else None)
                     defs.append({"kind": "ref", "ref": ref, "units": us, "order": list(perm), "doc_pos": pat["doc_pos"],
                                  "combo": combo})
     if tier == "thorough":
@@ -132,9 +138,9 @@ def ref_definitions(tier):
                 k += 1
                 us = []
                 for i, lit in enumerate(combo):
-                    pre = PREFIX_FOR.get(lit) if pat["prefix"] else None
+                    pre = PREFIX_FOR.get(lit) if pat["prefix_units"] else None
                     us.append(unit("Unit_%s" % "abc"[i].upper() + "x", SYMS[i + 1], lit, pre, "doc %d" % i if pat["doc"] else None))
-                ref = unit("Ref_Unit", SYMS[0], None, "NONE" if pat["prefix"] else None, "reference" if pat["doc"] else None)
+                ref = unit("Ref_Unit", SYMS[0], None, "NONE" if pat["prefix_ref"] else None, "reference" if pat["doc"] else None)
                 defs.append({"kind": "ref", "ref": ref, "units": us, "order": list(perm), "doc_pos": pat["doc_pos"], "combo": combo})
     return defs
 
@@ -156,8 +162,26 @@ def big_ref_definitions(tier):
     return defs
 
 
+def tiny_ref_definitions(tier):
+    """scales closer together than f64::EPSILON, in every declaration order (an ordering that compares with a
+    tolerance would treat them as ties)"""
+    defs = []
+    lits = ["1e-16", "1e-17", "0.000000000000000001", "0.5"]
+    for combo in itertools.permutations(lits, 3):
+        for perm in ((0, 1, 2, 3), (3, 2, 1, 0)):
+            us = [unit("Unit_%sx" % "ABC"[i], SYMS[i + 1], lit) for i, lit in enumerate(combo)]
+            defs.append({"kind": "ref", "ref": unit("Ref_Unit", SYMS[0]), "units": us, "order": list(perm), "doc_pos": None,
+                         "combo": ("tiny",) + combo})
+    return defs
+
+
 def noref_definitions(tier):
     defs = []
+    # all units share one symbol: they are still different units
+    for n in (2, 3):
+        for ids in itertools.permutations(NOREF_IDS, n):
+            defs.append({"kind": "noref", "ref": None, "units": [unit(i, "same") for i in ids], "order": None, "doc_pos": None,
+                         "combo": ("dup",) + ids})
     for n in (1, 2, 3):
         for ids in itertools.permutations(NOREF_IDS, n):
             for with_doc in (False, True):
